@@ -98,7 +98,7 @@ def run(ctx):
     rng = ctx.rng
     opts = [{"tables": 1, "consume_input": False, "chart": 1}, {"tables": 1, "consume_input": False, "lexdis": True},
             {"tables": 0, "consume_input": False, "chart": 1}]
-    jobs = glrcases.gen_jobs(rng, quick, opts[:2] if quick else opts, nrand=60 if quick else 700,
+    jobs = glrcases.gen_jobs(rng, quick, opts[:2] if quick else opts, nrand=60 if quick else 400,
                              maxlen=4 if quick else 6)
     # plus dedicated prefix grammars with overlapping terminals of different lengths
     for name, text, alpha in [("pre_a_aa", "S: 'a' | 'aa';", "a"),
